@@ -52,6 +52,9 @@ V = [
   "trans_prob = 1 - np.exp(-tau * duration)", "trans_prob = 1 - np.exp(-duration)", "MARKOV"),
  ("fastsir-swap-rate-args", ["C01", "C11"], B, "simulation", "fast_SIR",
   "rate = trans_rate_fxn(source, target)", "rate = trans_rate_fxn(target, source)", "MARKOV"),
+ ("nonmarkov-sir-slice-before-event-loop", ["C01", "C04", "C11"], B, "simulation", "fast_nonMarkov_SIR",
+  "    while Q:\n        Q.pop_and_run()\n    times = times[len(initial_infecteds):]",
+  "    times = times[len(initial_infecteds):]\n    while Q:\n        Q.pop_and_run()", "R9.C04"),
  ("sir-handler-strict-rec", ["C01", "C11"], B, "simulation", "_process_trans_SIR_",
   "inf_time <= rec_time[target] and", "inf_time < rec_time[target] and", "H-guard"),
  ("sir-handler-no-pred-update", ["C01", "C11"], B, "simulation", "_process_trans_SIR_",
